@@ -230,3 +230,1109 @@ Proof.
     destruct (lookup M c k) as [b|] eqn:L; auto.
     apply rev_entry_undo.
 Qed.
+
+(* ------------------------------------------------------------------ updates of the duplicate columns *)
+Section Upd.
+Variable h : N.
+Hypothesis Hh : u64 h.
+Variable g : key -> wop -> @smap wop -> @smap wop.
+Variable r : wop -> option wop.
+Hypothesis g_mget : forall k o m fk, ssorted m ->
+  mget fk (g k o m) = if keqb fk (height_key k h) then r o else mget fk m.
+Hypothesis g_sorted : forall k o m, ssorted m -> ssorted (g k o m).
+
+Lemma hk_eqb : forall k k', keqb (height_key k h) (height_key k' h) = keqb k k'.
+Proof.
+  intros. destruct (keqb k k') eqn:E.
+  - apply keqb_eq in E. subst. apply keqb_eq. auto.
+  - destruct (keqb (height_key k h) (height_key k' h)) eqn:E2; auto.
+    apply keqb_eq in E2. apply height_key_inj in E2 as [-> _]; auto.
+    assert (keqb k' k' = true) by (apply keqb_eq; auto). congruence.
+Qed.
+
+Lemma upd_entries_sorted : forall es m, ssorted m -> ssorted (upd_entries g es m).
+Proof. induction es as [|[k o] es]; cbn; intros; auto. Qed.
+
+Lemma upd_entries_other : forall es m fk, ssorted m -> (forall k, fk <> height_key k h) ->
+  mget fk (upd_entries g es m) = mget fk m.
+Proof.
+  induction es as [|[k o] es]; cbn [upd_entries]; intros m fk Hs Hne; auto.
+  rewrite IHes by auto. rewrite g_mget by auto.
+  destruct (keqb fk (height_key k h)) eqn:E; auto. apply keqb_eq in E. destruct (Hne k). auto.
+Qed.
+
+Lemma upd_entries_hk : forall es m k, ssorted es -> ssorted m ->
+  mget (height_key k h) (upd_entries g es m) =
+  match mget k es with Some o => r o | None => mget (height_key k h) m end.
+Proof.
+  induction es as [|[k0 o0] es]; intros m k He Hs; cbn [upd_entries mget]; auto.
+  pose proof (ssorted_head _ _ He) as Hd0. pose proof (ssorted_tail _ _ He) as Ht.
+  rewrite IHes by auto. rewrite g_mget by auto. rewrite hk_eqb. unfold keqb.
+  destruct (kcmp k k0) eqn:E.
+  - apply kcmp_eq in E. subst.
+    destruct (mget k0 es) eqn:G; auto.
+    apply mget_In in G; auto. apply Hd0 in G. cbn in G. rewrite kltb_irrefl in G. discriminate.
+  - destruct (mget k es) eqn:G; auto.
+    apply mget_In in G; auto. apply Hd0 in G. cbn in G. apply kltb_lt in G.
+    pose proof (kcmp_lt_trans _ _ _ E G) as HH. rewrite kcmp_refl in HH. discriminate.
+  - auto.
+Qed.
+
+Lemma upd_hist_sorted : forall rc dup, csorted dup -> csorted (upd_hist g rc dup).
+Proof.
+  induction rc as [|[c es] rc]; cbn; intros; auto. apply IHrc. apply csorted_cset; auto.
+  apply upd_entries_sorted. auto.
+Qed.
+Lemma upd_hist_other : forall rc dup c fk, csorted dup -> (forall k, fk <> height_key k h) ->
+  mget fk (cget c (upd_hist g rc dup)) = mget fk (cget c dup).
+Proof.
+  induction rc as [|[c0 es] rc]; cbn [upd_hist]; intros dup c fk Hs Hne; auto.
+  rewrite IHrc; auto.
+  - rewrite cget_cset. destruct (c0 =? c) eqn:E; auto. apply N.eqb_eq in E. subst.
+    apply upd_entries_other; auto.
+  - apply csorted_cset; auto. apply upd_entries_sorted. auto.
+Qed.
+
+Lemma wfM_tail : forall c0 es (M : cstate wop), wfM ((c0, es) :: M) ->
+  ssorted es /\ wfM M /\ ~ In c0 (map fst M).
+Proof.
+  intros c0 es M [Ms Mn]. inversion Mn; subst. split; [|split]; auto.
+  - specialize (Ms c0). cbn [cget] in Ms. rewrite N.eqb_refl in Ms. auto.
+  - split; auto. intros x. destruct (N.eq_dec x c0) as [->|Ne].
+    + rewrite cget_notin by auto. constructor.
+    + specialize (Ms x). cbn [cget] in Ms. destruct (c0 =? x) eqn:E; auto. apply N.eqb_eq in E. congruence.
+Qed.
+
+Lemma upd_hist_hk : forall rc dup c k, wfM rc -> csorted dup ->
+  mget (height_key k h) (cget c (upd_hist g rc dup)) =
+  match lookup rc c k with Some o => r o | None => mget (height_key k h) (cget c dup) end.
+Proof.
+  induction rc as [|[c0 es] rc]; intros dup c k Hw Hs; cbn [upd_hist]; auto.
+  destruct (wfM_tail _ _ _ Hw) as [He [Hw' Hn]].
+  rewrite IHrc; auto.
+  - unfold lookup. cbn [cget]. rewrite cget_cset. destruct (c0 =? c) eqn:E.
+    + apply N.eqb_eq in E. subst. rewrite cget_notin by auto. cbn [mget].
+      apply upd_entries_hk; auto.
+    + auto.
+  - apply csorted_cset; auto. apply upd_entries_sorted. auto.
+Qed.
+End Upd.
+
+Lemma remove_g_mget : forall h k (o : wop) (m : @smap wop) fk, ssorted m ->
+  mget fk (mremove (height_key k h) m) = if keqb fk (height_key k h) then None else mget fk m.
+Proof. intros. apply mget_mremove. auto. Qed.
+Lemma add_g_mget : forall h k (o : wop) (m : @smap wop) fk, ssorted m ->
+  mget fk (minsert (height_key k h) o m) = if keqb fk (height_key k h) then Some o else mget fk m.
+Proof. intros. apply mget_minsert. Qed.
+
+Lemma remove_hist_hk : forall h rc dup c k, u64 h -> wfM rc -> csorted dup ->
+  mget (height_key k h) (cget c (remove_historical h rc dup)) =
+  match lookup rc c k with Some _ => None | None => mget (height_key k h) (cget c dup) end.
+Proof.
+  intros. unfold remove_historical.
+  rewrite (upd_hist_hk h H _ (fun _ => None)); auto; intros;
+    try (apply remove_g_mget; auto); try (apply mremove_sorted; auto).
+Qed.
+Lemma remove_hist_other : forall h rc dup c fk, csorted dup -> (forall k, fk <> height_key k h) ->
+  mget fk (cget c (remove_historical h rc dup)) = mget fk (cget c dup).
+Proof.
+  intros. unfold remove_historical. apply (upd_hist_other h _ (fun _ => None)); auto.
+  - intros. apply remove_g_mget; auto.
+  - intros. apply mremove_sorted. auto.
+Qed.
+Lemma remove_hist_sorted : forall h rc dup, csorted dup -> csorted (remove_historical h rc dup).
+Proof. intros. apply upd_hist_sorted; auto. intros. apply mremove_sorted. auto. Qed.
+Lemma add_hist_hk : forall h rc dup c k, u64 h -> wfM rc -> csorted dup ->
+  mget (height_key k h) (cget c (add_historical h rc dup)) =
+  match lookup rc c k with Some o => Some o | None => mget (height_key k h) (cget c dup) end.
+Proof.
+  intros. unfold add_historical.
+  apply (upd_hist_hk h H _ (fun o => Some o)); auto.
+  - intros. apply add_g_mget; auto.
+  - intros. apply minsert_sorted. auto.
+Qed.
+Lemma add_hist_other : forall h rc dup c fk, csorted dup -> (forall k, fk <> height_key k h) ->
+  mget fk (cget c (add_historical h rc dup)) = mget fk (cget c dup).
+Proof.
+  intros. unfold add_historical. apply (upd_hist_other h _ (fun o => Some o)); auto.
+  - intros. apply add_g_mget; auto.
+  - intros. apply minsert_sorted. auto.
+Qed.
+Lemma add_hist_sorted : forall h rc dup, csorted dup -> csorted (add_historical h rc dup).
+Proof. intros. apply upd_hist_sorted; auto. intros. apply minsert_sorted. auto. Qed.
+
+(* a found key either is some key followed by the 8 bytes of h, or is not *)
+Lemma hk_form_dec : forall fk h, (exists k, fk = height_key k h) \/ (forall k, fk <> height_key k h).
+Proof.
+  intros fk h.
+  destruct (list_eq_dec N.eq_dec (skipn (length fk - 8) fk) (be64 h)) as [E|N];
+    [destruct (le_lt_dec 8 (length fk)) as [L|L]|].
+  - left. exists (firstn (length fk - 8) fk). unfold height_key. rewrite <- E. symmetry. apply firstn_skipn.
+  - right. intros k E2. subst fk. unfold height_key in L. rewrite app_length, be64_length in L. lia.
+  - right. intros k E2. apply N. subst fk. unfold height_key.
+    rewrite app_length, be64_length. replace (length k + 8 - 8)%nat with (length k) by lia.
+    rewrite skipn_app, Nat.sub_diag, skipn_all. cbn. auto.
+Qed.
+
+(* ------------------------------------------------------------------ the chain of snapshots *)
+Fixpoint chain_wf (start : N) (ch : chain) : Prop :=
+  match ch with
+  | [] => True
+  | (h, sn) :: r => h = start + N.of_nat (length r) /\ csorted sn /\ chain_wf start r
+  end.
+Definition st_at (ch : chain) (h : N) : cstate value := match chain_get h ch with Some s => s | None => [] end.
+Definition prev_state (start : N) (ch : chain) (h : N) : cstate value :=
+  if h =? start then [] else st_at ch (h - 1).
+Definition in_chain (ch : chain) (h : N) : Prop := chain_get h ch <> None.
+
+Lemma in_chain_range : forall start ch h, chain_wf start ch ->
+  (in_chain ch h <-> start <= h < start + N.of_nat (length ch)).
+Proof.
+  unfold in_chain. induction ch as [|[h0 S] r]; intros h Hw; cbn [chain_get length].
+  - split. congruence. lia.
+  - destruct Hw as [-> [_ Hw]]. destruct (start + N.of_nat (length r) =? h) eqn:E.
+    + split. lia. congruence.
+    + rewrite (IHr h Hw). lia.
+Qed.
+Lemma chain_latest_next : forall start ch, chain_wf start ch ->
+  next_height start (chain_latest ch) = start + N.of_nat (length ch).
+Proof.
+  intros start [|[h S] r] Hw; cbn [chain_latest next_height length]. lia.
+  destruct Hw as [-> _]. lia.
+Qed.
+Lemma st_at_sorted : forall start ch h, chain_wf start ch -> csorted (st_at ch h).
+Proof.
+  unfold st_at. induction ch as [|[h0 S] r]; intros h Hw; cbn [chain_get]. apply csorted_nil.
+  destruct Hw as [_ [HS Hw]]. destruct (h0 =? h); auto.
+Qed.
+Lemma chain_top_sorted : forall start ch, chain_wf start ch -> csorted (chain_top ch).
+Proof. intros start [|[h S] r] Hw; cbn. apply csorted_nil. apply Hw. Qed.
+
+(* pushing / popping the newest snapshot does not change the older ones *)
+Lemma st_at_push : forall start ch h0 sn h, chain_wf start ch -> in_chain ch h ->
+  h0 = start + N.of_nat (length ch) -> st_at ((h0, sn) :: ch) h = st_at ch h.
+Proof.
+  intros. unfold st_at. cbn [chain_get]. apply (in_chain_range start) in H0; auto.
+  destruct (h0 =? h) eqn:E; auto. lia.
+Qed.
+Lemma prev_state_push : forall start ch h0 sn h, chain_wf start ch -> in_chain ch h ->
+  h0 = start + N.of_nat (length ch) -> prev_state start ((h0, sn) :: ch) h = prev_state start ch h.
+Proof.
+  intros. unfold prev_state, st_at. destruct (h =? start); auto. cbn [chain_get].
+  apply (in_chain_range start) in H0; auto. destruct (h0 =? h - 1) eqn:E; auto. lia.
+Qed.
+
+(* ------------------------------------------------------------------ the invariant *)
+Definition Hd (d : hdb) (h : N) : option changes := mget (be64 h) (h_hist d).
+Definition to_op (o : option value) : wop := match o with Some v => WInsert v | None => WRemove end.
+Definition rdiff (old new : option value) : option wop := if oveqb old new then None else Some (to_op old).
+
+Lemma oveqb_eq : forall a b, oveqb a b = true <-> a = b.
+Proof.
+  intros [a|] [b|]; cbn; try (split; congruence).
+  rewrite bytes_eqb_eq. split; congruence.
+Qed.
+Lemma rev_entry_rdiff : forall old b, rev_entry old b = rdiff old (opval b).
+Proof.
+  intros [o|] [|n]; cbn; auto.
+Qed.
+Lemma rdiff_refl : forall a, rdiff a a = None.
+Proof. intros. unfold rdiff. assert (oveqb a a = true) as -> by (apply oveqb_eq; auto). auto. Qed.
+Lemma rdiff_none : forall a b, rdiff a b = None -> a = b.
+Proof. unfold rdiff. intros a b. destruct (oveqb a b) eqn:E; try discriminate. intros _. apply oveqb_eq. auto. Qed.
+Lemma rdiff_some : forall a b o, rdiff a b = Some o -> opval o = a.
+Proof. unfold rdiff. intros a b o. destruct (oveqb a b); try discriminate. intros H. injection H as <-. destruct a; auto. Qed.
+
+Record Inv (U : list ck) (start : N) (d : hdb) (ch : chain) : Prop := {
+  i_main_sorted : csorted (h_main d);
+  i_main : ceq (h_main d) (chain_top ch);
+  i_chain : chain_wf start ch;
+  i_bound : u64 (start + N.of_nat (length ch));
+  i_hist_sorted : ssorted (h_hist d);
+  i_hist_keys : forall fk rc, In (fk, rc) (h_hist d) -> exists h, fk = be64 h /\ in_chain ch h;
+  i_hist : forall h rc, in_chain ch h -> Hd d h = Some rc ->
+    wfM rc /\ forall c k, lookup rc c k = rdiff (lookup (prev_state start ch h) c k) (lookup (st_at ch h) c k);
+  i_dup_sorted : csorted (h_dup d);
+  i_dup_sound : forall c fk o, In (fk, o) (cget c (h_dup d)) ->
+    exists k h rc, fk = height_key k h /\ in_chain ch h /\ Hd d h = Some rc /\ lookup rc c k = Some o /\ In (c, k) U;
+  i_dup_complete : forall c k h rc o, in_chain ch h -> Hd d h = Some rc -> lookup rc c k = Some o ->
+    mget (height_key k h) (cget c (h_dup d)) = Some o }.
+
+Lemma in_chain_u64 : forall U start d ch h, Inv U start d ch -> in_chain ch h -> u64 h.
+Proof.
+  intros U start d ch h I H. apply (in_chain_range start) in H. 2: apply I.
+  pose proof (i_bound _ _ _ _ I). unfold u64 in *. lia.
+Qed.
+
+(* no hole above a retained height *)
+Definition GF (d : hdb) (ch : chain) : Prop :=
+  forall a j, in_chain ch a -> Hd d a <> None -> a <= j -> in_chain ch j -> Hd d j <> None.
+
+Lemma sw_app_cases : forall a b k, starts_with (a ++ b) k = true ->
+  starts_with a k = true \/ starts_with k a = true.
+Proof.
+  induction a as [|x a IH]; intros b k H.
+  - right. apply sw_nil.
+  - destruct k as [|y k]. left. auto.
+    cbn in H. apply andb_true_iff in H as [E H]. apply N.eqb_eq in E. subst.
+    destruct (IH _ _ H); [left|right]; cbn; rewrite N.eqb_refl; auto.
+Qed.
+Lemma prefix_free_in_spec : forall x l, prefix_free_in x l = true -> forall y, In y l ->
+  fst x = fst y -> snd x = snd y \/ (starts_with (snd x) (snd y) = false /\ starts_with (snd y) (snd x) = false).
+Proof.
+  induction l as [|z l]; intros H y Hy E; [destruct Hy|]. cbn [prefix_free_in] in H.
+  apply andb_true_iff in H as [H1 H2]. destruct Hy as [<-|Hy]; auto.
+  apply orb_true_iff in H1 as [H1|H1].
+  - apply orb_true_iff in H1 as [H1|H1].
+    + apply negb_true_iff in H1. apply N.eqb_neq in H1. congruence.
+    + left. apply keqb_eq. auto.
+  - apply andb_true_iff in H1 as [A B]. apply negb_true_iff in A, B. auto.
+Qed.
+Lemma prefix_free_spec : forall l, prefix_free l = true -> forall c k k', In (c, k) l -> In (c, k') l ->
+  starts_with k k' = true -> k = k'.
+Proof.
+  induction l as [|z l]; intros H c k k' Hk Hk' S; [destruct Hk|].
+  cbn [prefix_free] in H. apply andb_true_iff in H as [H1 H2].
+  destruct Hk as [->|Hk], Hk' as [E|Hk'].
+  - congruence.
+  - destruct (prefix_free_in_spec _ _ H1 _ Hk' eq_refl) as [E|[A B]]; cbn [fst snd] in *; auto; congruence.
+  - subst z. destruct (prefix_free_in_spec _ _ H1 _ Hk eq_refl) as [E|[A B]]; cbn [fst snd] in *; auto; congruence.
+  - eapply IHl; eauto.
+Qed.
+
+(* values do not change across heights whose reverse diff does not mention the key *)
+Lemma unchanged_run : forall U start d ch c k h n, Inv U start d ch ->
+  (forall j, h < j <= h + N.of_nat n -> in_chain ch j /\ exists rc, Hd d j = Some rc /\ lookup rc c k = None) ->
+  forall sn, snapshot start ch h = Some sn ->
+  n <> O -> lookup (st_at ch (h + N.of_nat n)) c k = lookup sn c k.
+Proof.
+  intros U start d ch c k h n I. induction n as [|n IH]; intros Hj sn HS Hn. congruence.
+  assert (in_chain ch (h + N.of_nat (S n)) /\ exists rc, Hd d (h + N.of_nat (S n)) = Some rc /\ lookup rc c k = None) as [Hin [rc [Hrc Hl]]].
+  { apply Hj. lia. }
+  destruct (i_hist _ _ _ _ I _ _ Hin Hrc) as [_ Hd']. rewrite Hd' in Hl. apply rdiff_none in Hl.
+  rewrite <- Hl. unfold prev_state.
+  pose proof (proj1 (in_chain_range start ch _ (i_chain _ _ _ _ I)) Hin) as R.
+  destruct n as [|n'].
+  - (* the height right above h *)
+    replace (h + N.of_nat 1) with (h + 1) in * by lia.
+    unfold snapshot in HS. destruct (h + 1 =? start) eqn:E.
+    + assert (chain_get h ch = None) as G.
+      { destruct (chain_get h ch) eqn:G; auto.
+        assert (in_chain ch h) as X by (unfold in_chain; congruence).
+        apply (in_chain_range start) in X. lia. apply I. }
+      rewrite G in HS. destruct ((1 <=? start) && (h =? start - 1)); try discriminate. injection HS as <-. auto.
+    + replace (h + 1 - 1) with h by lia. unfold st_at.
+      assert (in_chain ch h) as X by (apply (in_chain_range start); [apply I | lia]).
+      unfold in_chain in X. destruct (chain_get h ch); congruence.
+  - assert (start <= h + N.of_nat (S n')) as R2.
+    { destruct (Hj (h + N.of_nat (S n'))) as [X _]. lia.
+      apply (in_chain_range start) in X. lia. apply I. }
+    destruct (h + N.of_nat (S (S n')) =? start) eqn:E; [lia|].
+    replace (h + N.of_nat (S (S n')) - 1) with (h + N.of_nat (S n')) by lia.
+    apply IH; auto. intros j Hjr. apply Hj. lia.
+Qed.
+
+(* ------------------------------------------------------------------ a view is the snapshot *)
+Lemma Hd_in_chain : forall U start d ch x rc, Inv U start d ch -> u64 x -> Hd d x = Some rc -> in_chain ch x.
+Proof.
+  intros U start d ch x rc I Hx H. unfold Hd in H. apply mget_In in H. 2: apply I.
+  destruct (i_hist_keys _ _ _ _ I _ _ H) as [h' [E Hin]].
+  apply be64_inj in E; auto. subst. auto. eapply in_chain_u64; eauto.
+Qed.
+Lemma hist_has_Hd : forall d x, hist_has x d = true <-> Hd d x <> None.
+Proof. intros. unfold hist_has, Hd. destruct (mget (be64 x) (h_hist d)); split; congruence. Qed.
+
+Lemma prev_snapshot : forall start ch h sn, chain_wf start ch -> in_chain ch (h + 1) ->
+  snapshot start ch h = Some sn -> prev_state start ch (h + 1) = sn.
+Proof.
+  intros start ch h sn Hw Hin HS. apply (in_chain_range start) in Hin; auto.
+  unfold prev_state, snapshot in *. destruct (h + 1 =? start) eqn:E.
+  - assert (chain_get h ch = None) as G.
+    { destruct (chain_get h ch) eqn:G; auto.
+      assert (in_chain ch h) as X by (unfold in_chain; congruence).
+      apply (in_chain_range start) in X; auto. lia. }
+    rewrite G in HS. destruct ((1 <=? start) && (h =? start - 1)); try discriminate. congruence.
+  - replace (h + 1 - 1) with h by lia. unfold st_at.
+    assert (in_chain ch h) as X by (apply (in_chain_range start); auto; lia).
+    unfold in_chain in X. destruct (chain_get h ch); congruence.
+Qed.
+
+(* the value of (c,k) at the snapshot of h equals the value at a later height when no reverse
+   diff in between mentions the key *)
+Lemma unchanged_to : forall U start d ch c k h h2 sn, Inv U start d ch ->
+  snapshot start ch h = Some sn -> h <= h2 -> (h2 = h \/ in_chain ch h2) ->
+  (forall j rc, h < j <= h2 -> Hd d j = Some rc -> lookup rc c k = None) ->
+  (forall j, h < j <= h2 -> Hd d j <> None) ->
+  (h2 = h -> in_chain ch h) ->
+  lookup (st_at ch h2) c k = lookup sn c k.
+Proof.
+  intros U start d ch c k h h2 sn I HS Hle Hin Hun Hall Hsame.
+  destruct (N.eq_dec h2 h) as [->|Ne].
+  - specialize (Hsame eq_refl). unfold snapshot in HS. unfold st_at. unfold in_chain in Hsame.
+    destruct (chain_get h ch); congruence.
+  - destruct Hin as [->|Hin]; [congruence|].
+    replace h2 with (h + N.of_nat (N.to_nat (h2 - h))) by lia.
+    apply (unchanged_run U start d); auto; try lia.
+    intros j Hj. assert (in_chain ch j) as Hjin.
+    { apply (in_chain_range start) in Hin. 2: apply I. apply (in_chain_range start). apply I.
+      split; [|lia]. unfold snapshot in HS. destruct (chain_get h ch) eqn:G.
+      - assert (in_chain ch h) as X by (unfold in_chain; congruence).
+        apply (in_chain_range start) in X. lia. apply I.
+      - destruct ((1 <=? start) && (h =? start - 1)) eqn:B; try discriminate. lia. }
+    split; auto. specialize (Hall j ltac:(lia)).
+    destruct (Hd d j) as [rc|] eqn:G; [|congruence]. exists rc. split; auto. apply (Hun j); auto. lia.
+Qed.
+
+Lemma view_granted : forall U start d ch h rb,
+  Inv U start d ch -> GF d ch -> u64 (h + 1) -> create_view_at h d = Some rb ->
+  let L := start + N.of_nat (length ch) in
+  rb = h + 1 /\
+  exists sn, snapshot start ch h = Some sn /\
+          (forall j, h < j < L -> Hd d j <> None) /\ (h + 1 = L -> in_chain ch h) /\ h < L /\ start < L /\ start <= h + 1.
+Proof.
+  intros U start d ch h rb I G Hb HV.
+  pose proof (i_chain _ _ _ _ I) as Hw.
+  set (L := start + N.of_nat (length ch)).
+  assert (HL : forall x, in_chain ch x <-> start <= x < L) by (intros; apply in_chain_range; auto).
+  unfold create_view_at in HV.
+  assert (sat_add u64max h 1 = h + 1) as Erb by (unfold sat_add, u64max, u64 in *; lia).
+  rewrite Erb in HV.
+  destruct (hist_has (h + 1) d || hist_has h d) eqn:HH; try discriminate. injection HV as <-.
+  split; auto.
+  destruct (hist_has (h + 1) d) eqn:H1.
+    - apply hist_has_Hd in H1. destruct (Hd d (h + 1)) as [rc|] eqn:E1; [|congruence].
+      pose proof (Hd_in_chain _ _ _ _ _ _ I Hb E1) as Hin. pose proof (proj1 (HL _) Hin) as R.
+      assert (exists sn, snapshot start ch h = Some sn) as [sn HS].
+      { unfold snapshot. destruct (chain_get h ch) eqn:Gh; eauto.
+        assert (~ in_chain ch h) as X by (unfold in_chain; congruence). rewrite HL in X.
+        assert ((1 <=? start) && (h =? start - 1) = true) as -> by lia. eauto. }
+      exists sn. split; auto. split; [|split; [|lia]].
+      + intros j Hj. apply (G (h + 1) j); auto; try lia. congruence. apply HL. lia.
+      + intros. lia.
+    - cbn [orb] in HH. apply hist_has_Hd in HH. destruct (Hd d h) as [rc|] eqn:E0; [|congruence].
+      assert (u64 h) as Hbh by (unfold u64 in *; lia).
+      pose proof (Hd_in_chain _ _ _ _ _ _ I Hbh E0) as Hin. pose proof (proj1 (HL _) Hin) as R.
+      assert (h + 1 = L) as Etop.
+      { destruct (N.eq_dec (h + 1) L); auto. exfalso.
+        assert (Hd d (h + 1) <> None) as X.
+        { apply (G h (h + 1)); auto; try lia. congruence. apply HL. lia. }
+        apply hist_has_Hd in X. congruence. }
+      exists (st_at ch h). split; [|split; [|split; [|lia]]]; auto.
+      + unfold snapshot, st_at. unfold in_chain in Hin. destruct (chain_get h ch); congruence.
+      + intros. lia. 
+Qed.
+
+Lemma view_correct : forall U start d ch h rb c k,
+  Inv U start d ch -> GF d ch -> prefix_free U = true -> In (c, k) U -> u64 (h + 1) ->
+  create_view_at h d = Some rb ->
+  exists sn, snapshot start ch h = Some sn /\ view_get rb d c k = lookup sn c k.
+Proof.
+  intros U start d ch h rb c k I G PF HU Hb HV.
+  pose proof (i_chain _ _ _ _ I) as Hw.
+  destruct (view_granted U start d ch h rb I G Hb HV) as [-> [sn [HS [Hall [Htop [HhL [HsL Hlow]]]]]]].
+  set (L := start + N.of_nat (length ch)) in *.
+  assert (HL : forall x, in_chain ch x <-> start <= x < L) by (intros; apply in_chain_range; auto).
+  exists sn. split; auto.
+  (* when no retained diff above h mentions the key, the latest state has the value *)
+  assert (Hfall : (forall j rc, h < j < L -> Hd d j = Some rc -> lookup rc c k = None) ->
+                  mget k (cget c (h_main d)) = lookup sn c k).
+  { intros Hun. change (lookup (h_main d) c k = lookup sn c k).
+    unfold lookup at 1. rewrite (i_main _ _ _ _ I c). fold (lookup (chain_top ch) c k).
+    assert (chain_top ch = st_at ch (L - 1)) as ->.
+    { destruct ch as [|[h0 s0] r]. subst L. cbn in *. lia.
+      cbn [chain_top]. unfold st_at. cbn [chain_get]. destruct Hw as [-> _]. subst L. cbn [length].
+      assert (start + N.of_nat (length r) =? start + N.of_nat (S (length r)) - 1 = true) as -> by lia. auto. }
+    apply (unchanged_to U start d ch c k h (L - 1) sn); auto; try lia.
+    - destruct (N.eq_dec (L - 1) h); auto. right. apply HL. lia.
+    - intros j rc Hj. apply Hun. lia.
+    - intros j Hj. apply Hall. lia.
+    - intros E. apply Htop. lia. }
+  unfold view_get.
+  pose proof (i_dup_sorted _ _ _ _ I c) as Hds.
+  set (dupc := cget c (h_dup d)) in *.
+  (* an entry of key k at a retained height j > h sits at or above the seek key *)
+  assert (Hentry : forall j rc o, h < j < L -> Hd d j = Some rc -> lookup rc c k = Some o ->
+            In (height_key k j, o) dupc /\ kleb (height_key k (h + 1)) (height_key k j) = true).
+  { intros j rc o Hj E Hl. assert (in_chain ch j) as Hjin by (apply HL; split; [|lia];
+      unfold snapshot in HS; destruct (chain_get h ch) eqn:Gh;
+      [assert (in_chain ch h) as X by (unfold in_chain; congruence); apply HL in X; lia |
+       destruct ((1 <=? start) && (h =? start - 1)) eqn:B; try discriminate; lia]).
+    split.
+    - apply mget_In; auto. eapply (i_dup_complete _ _ _ _ I); eauto.
+    - unfold kleb. rewrite height_key_cmp; auto.
+      + destruct (N.compare_spec (h + 1) j); auto. lia.
+      + eapply in_chain_u64; eauto. }
+  destruct (c_item dupc (c_seek dupc (height_key k (h + 1)))) as [[fk o]|] eqn:SE.
+  - destruct (seek_some _ _ _ _ Hds SE) as [Hin [Hge Hmin]].
+    destruct (i_dup_sound _ _ _ _ I _ _ _ Hin) as [k' [h' [rc [Efk [Hin' [Hrc [Hl HU']]]]]]].
+    pose proof (in_chain_u64 _ _ _ _ _ I Hin') as Hb'.
+    destruct (Nat.eqb (length fk) (length k + 8) && bytes_eqb (firstn (length k) fk) k) eqn:CK.
+    + (* the nearest modification of this very key *)
+      apply andb_true_iff in CK as [C1 C2]. apply Nat.eqb_eq in C1. apply bytes_eqb_eq in C2.
+      assert (k' = k).
+      { subst fk. unfold height_key in *. rewrite app_length, be64_length in C1.
+        assert (length k' = length k) as EL by lia.
+        rewrite <- EL, firstn_app, Nat.sub_diag, firstn_all in C2. cbn in C2. rewrite app_nil_r in C2. auto. }
+      subst k' fk.
+      assert (h + 1 <= h') as Hh'.
+      { unfold kleb in Hge. rewrite height_key_cmp in Hge; auto.
+        destruct (N.compare_spec (h + 1) h'); try discriminate; lia. }
+      pose proof (proj1 (HL _) Hin') as R'.
+      destruct (i_hist _ _ _ _ I _ _ Hin' Hrc) as [_ Hdiff]. rewrite Hdiff in Hl.
+      apply rdiff_some in Hl.
+      assert (lookup (prev_state start ch h') c k = lookup sn c k) as Eprev.
+      { destruct (N.eq_dec h' (h + 1)) as [->|Ne].
+        - rewrite (prev_snapshot start ch h sn); auto.
+        - unfold prev_state. assert (h' =? start = false) as -> by lia.
+          apply (unchanged_to U start d ch c k h (h' - 1) sn); auto; try lia.
+          + right. apply HL. lia.
+          + intros j rcj Hj Ej. destruct (lookup rcj c k) as [o'|] eqn:El; auto. exfalso.
+            destruct (Hentry j rcj o' ltac:(lia) Ej El) as [Hinj Hgej].
+            specialize (Hmin _ Hinj Hgej). cbn [fst] in Hmin.
+            unfold kleb in Hmin. rewrite height_key_cmp in Hmin; auto.
+            * destruct (N.compare_spec h' j); try discriminate; lia.
+            * apply (in_chain_u64 _ _ _ _ _ I). apply HL. lia.
+          + intros j Hj. apply Hall. lia. }
+      rewrite <- Eprev, <- Hl. destruct o; auto.
+    + (* another key's entry: this key was not modified above h *)
+      apply Hfall. intros j rcj Hj Ej. destruct (lookup rcj c k) as [o'|] eqn:El; auto. exfalso.
+      destruct (Hentry j rcj o' Hj Ej El) as [Hinj Hgej].
+      pose proof (Hmin _ Hinj Hgej) as Hle. cbn [fst] in Hle.
+      assert (starts_with fk k = true) as Hsw.
+      { apply (sw_convex k (height_key k (h + 1)) fk (height_key k j)); auto using height_key_sw. }
+      assert (k' = k).
+      { rewrite Efk in Hsw. unfold height_key in Hsw. apply sw_app_cases in Hsw as [S1|S1].
+        - apply (prefix_free_spec U PF c); auto.
+        - symmetry. apply (prefix_free_spec U PF c); auto. }
+      subst k'. rewrite Efk in CK. unfold height_key in CK.
+      rewrite app_length, be64_length, Nat.eqb_refl in CK.
+      rewrite firstn_app, Nat.sub_diag, firstn_all in CK. cbn in CK. rewrite app_nil_r in CK.
+      assert (bytes_eqb k k = true) by (apply bytes_eqb_eq; auto). congruence.
+  - (* nothing at or above the seek key *)
+    apply Hfall. intros j rcj Hj Ej. destruct (lookup rcj c k) as [o'|] eqn:El; auto. exfalso.
+    destruct (Hentry j rcj o' Hj Ej El) as [Hinj Hgej].
+    pose proof (seek_none _ _ Hds SE _ Hinj) as C. cbn [fst] in C. congruence.
+Qed.
+
+(* ------------------------------------------------------------------ the invariant is kept *)
+Lemma Inv_init : forall U start, u64 start -> Inv U start hdb_empty [].
+Proof.
+  intros U start Hb. constructor.
+  - apply csorted_nil.
+  - intros c. auto.
+  - cbn. auto.
+  - cbn. replace (start + 0) with start by lia. auto.
+  - constructor.
+  - intros fk rc [].
+  - intros h rc Hin. unfold in_chain in Hin. cbn in Hin. congruence.
+  - apply csorted_nil.
+  - intros c fk o H. cbn in H. destruct H.
+  - intros c k h rc o Hin. unfold in_chain in Hin. cbn in Hin. congruence.
+Qed.
+
+Lemma mremove_In_neq : forall {V} (m : @smap V) k x, ssorted m -> In x (mremove k m) -> In x m /\ fst x <> k.
+Proof.
+  intros V m k x Hs H. split. eapply mremove_In; eauto.
+  intros E. destruct x as [k' v]. cbn in E. subst k'.
+  apply mget_In in H. 2: apply mremove_sorted; auto.
+  rewrite mget_mremove in H by auto. assert (keqb k k = true) as X by (apply keqb_eq; auto). rewrite X in H. discriminate.
+Qed.
+
+Lemma Hd_other : forall (hist : @smap changes) x h, ssorted hist -> u64 x -> u64 h -> h <> x ->
+  mget (be64 h) (mremove (be64 x) hist) = mget (be64 h) hist.
+Proof.
+  intros. rewrite mget_mremove by auto. destruct (keqb (be64 h) (be64 x)) eqn:E; auto.
+  apply keqb_eq in E. apply be64_inj in E; auto. congruence.
+Qed.
+
+(* dropping the record of one retained height *)
+Lemma remove_height_facts : forall U start d ch x xc, Inv U start d ch -> in_chain ch x -> Hd d x = Some xc ->
+  let hist' := mremove (be64 x) (h_hist d) in
+  let dup' := remove_historical x xc (h_dup d) in
+  ssorted hist' /\
+  (forall fk rc, In (fk, rc) hist' -> exists h, fk = be64 h /\ in_chain ch h /\ h <> x) /\
+  (forall h, in_chain ch h -> h <> x -> mget (be64 h) hist' = Hd d h) /\
+  mget (be64 x) hist' = None /\
+  csorted dup' /\
+  (forall c fk o, In (fk, o) (cget c dup') ->
+     In (fk, o) (cget c (h_dup d)) /\ forall k, fk = height_key k x -> lookup xc c k = None) /\
+  (forall c k h, in_chain ch h -> h <> x ->
+     mget (height_key k h) (cget c dup') = mget (height_key k h) (cget c (h_dup d))).
+Proof.
+  intros U start d ch x xc I Hx Hxc. cbn zeta.
+  pose proof (i_hist_sorted _ _ _ _ I) as Hs. pose proof (i_dup_sorted _ _ _ _ I) as Hds.
+  pose proof (in_chain_u64 _ _ _ _ _ I Hx) as Hbx.
+  destruct (i_hist _ _ _ _ I _ _ Hx Hxc) as [Wxc _].
+  split; [apply mremove_sorted; auto|]. split; [|split; [|split; [|split; [|split]]]].
+  - intros fk rc Hin. apply mremove_In_neq in Hin as [Hin Hne]; auto.
+    destruct (i_hist_keys _ _ _ _ I _ _ Hin) as [h [-> Hh]]. exists h. split; auto. split; auto.
+    intros ->. apply Hne. auto.
+  - intros h Hh Hne. apply Hd_other; auto. eapply in_chain_u64; eauto.
+  - rewrite mget_mremove by auto. assert (keqb (be64 x) (be64 x) = true) as -> by (apply keqb_eq; auto). auto.
+  - apply remove_hist_sorted. auto.
+  - intros c fk o Hin. pose proof (remove_hist_sorted x xc _ Hds c) as Hs'.
+    apply mget_In in Hin; auto.
+    destruct (hk_form_dec fk x) as [[k ->]|Hne].
+    + rewrite remove_hist_hk in Hin by auto. destruct (lookup xc c k) eqn:El; try discriminate.
+      split. apply mget_In; auto.
+      intros k2 E2. apply height_key_inj in E2 as [<- _]; auto.
+    + rewrite remove_hist_other in Hin by auto. split. apply mget_In; auto.
+      intros k2 E2. destruct (Hne k2). auto.
+  - intros c k h Hh Hne. apply remove_hist_other; auto.
+    intros k2 E2. apply height_key_inj in E2 as [_ ->]; auto. eapply in_chain_u64; eauto.
+Qed.
+
+(* cleanup_old_changes keeps the invariant *)
+Lemma Inv_cleanup : forall U start d ch p h, Inv U start d ch -> u64 h -> Inv U start (cleanup_old p h d) ch.
+Proof.
+  intros U start d ch p h I Hb. unfold cleanup_old. destruct (p <=? 1); auto.
+  set (x := h - (p - 1)). destruct (mget (be64 x) (h_hist d)) as [xc|] eqn:E; auto.
+  assert (u64 x) as Hbx by (unfold u64 in *; lia).
+  assert (in_chain ch x) as Hx by (eapply Hd_in_chain; eauto).
+  destruct (remove_height_facts U start d ch x xc I Hx E) as [F1 [F2 [F3 [F4 [F5 [F6 F7]]]]]].
+  constructor; cbn [h_main h_hist h_dup]; try apply I; auto.
+  - intros fk rc Hin. destruct (F2 _ _ Hin) as [h' [-> [Hh' _]]]. eauto.
+  - intros h' rc Hh' Hrc. unfold Hd in Hrc. cbn [h_hist] in Hrc.
+    assert (h' <> x) as Hne by (intros ->; congruence).
+    rewrite F3 in Hrc by auto. apply (i_hist _ _ _ _ I); auto.
+  - intros c fk o Hin. destruct (F6 _ _ _ Hin) as [Hin0 Hx0].
+    destruct (i_dup_sound _ _ _ _ I _ _ _ Hin0) as [k [h' [rc [-> [Hh' [Hrc [Hl HU]]]]]]].
+    assert (h' <> x) as Hne.
+    { intros ->. unfold Hd in Hrc. rewrite E in Hrc. injection Hrc as <-.
+      rewrite (Hx0 k eq_refl) in Hl. discriminate. }
+    exists k, h', rc. repeat split; auto. unfold Hd. cbn [h_hist]. rewrite F3; auto.
+  - intros c k h' rc o Hh' Hrc Hl. unfold Hd in Hrc. cbn [h_hist] in Hrc.
+    assert (h' <> x) as Hne by (intros ->; congruence).
+    rewrite F3 in Hrc by auto. rewrite F7 by auto. eapply (i_dup_complete _ _ _ _ I); eauto.
+Qed.
+
+Lemma apply_changes_ceq : forall ch a b, ceq a b -> ceq (apply_changes ch a) (apply_changes ch b).
+Proof.
+  intros. eapply ceq_trans. apply apply_changes_batch. eapply ceq_trans. apply write_batch_ceq. eauto.
+  apply ceq_sym. apply apply_changes_batch.
+Qed.
+
+(* the chain without its newest element *)
+Lemma tl_chain_facts : forall start l sn r h, chain_wf start ((l, sn) :: r) -> in_chain r h ->
+  in_chain ((l, sn) :: r) h /\ h <> l /\ st_at r h = st_at ((l, sn) :: r) h /\
+  prev_state start r h = prev_state start ((l, sn) :: r) h.
+Proof.
+  intros start l sn r h Hw Hin. destruct Hw as [-> [_ Hw]].
+  pose proof (proj1 (in_chain_range start r h Hw) Hin) as R.
+  assert (start + N.of_nat (length r) =? h = false) as E1 by lia.
+  split; [|split; [lia|split]].
+  - unfold in_chain in *. cbn [chain_get]. rewrite E1. auto.
+  - unfold st_at. cbn [chain_get]. rewrite E1. auto.
+  - unfold prev_state, st_at. destruct (h =? start) eqn:E; auto. cbn [chain_get].
+    assert (start + N.of_nat (length r) =? h - 1 = false) as -> by lia. auto.
+Qed.
+
+Lemma prev_top : forall start ch h0 sn (main : cstate value) c k, chain_wf start ch -> ceq main (chain_top ch) ->
+  h0 = start + N.of_nat (length ch) ->
+  lookup (prev_state start ((h0, sn) :: ch) h0) c k = lookup main c k.
+Proof.
+  intros start ch h0 sn main c k Hw Hm ->. unfold prev_state, lookup. rewrite (Hm c).
+  destruct ch as [|[l s] r]; cbn [length chain_top].
+  - replace (start + N.of_nat 0 =? start) with true by lia. auto.
+  - destruct Hw as [-> _].
+    assert (start + N.of_nat (S (length r)) =? start = false) as -> by lia.
+    unfold st_at. cbn [chain_get].
+    assert (start + N.of_nat (S (length r)) =? start + N.of_nat (S (length r)) - 1 = false) as -> by lia.
+    assert (start + N.of_nat (length r) =? start + N.of_nat (S (length r)) - 1 = true) as -> by lia. auto.
+Qed.
+
+Lemma Inv_rollback : forall U start d l sn r lc, Inv U start d ((l, sn) :: r) -> Hd d l = Some lc ->
+  Inv U start {| h_main := apply_changes lc (h_main d); h_hist := mremove (be64 l) (h_hist d);
+                 h_dup := remove_historical l lc (h_dup d) |} r.
+Proof.
+  intros U start d l sn r lc I Hlc.
+  pose proof (i_chain _ _ _ _ I) as Hw.
+  assert (in_chain ((l, sn) :: r) l) as Hl.
+  { unfold in_chain. cbn [chain_get]. rewrite N.eqb_refl. congruence. }
+  destruct (remove_height_facts U start d _ l lc I Hl Hlc) as [F1 [F2 [F3 [F4 [F5 [F6 F7]]]]]].
+  destruct (i_hist _ _ _ _ I _ _ Hl Hlc) as [Wlc Hdiff].
+  pose proof (i_main_sorted _ _ _ _ I) as Hms.
+  assert (Hw' : chain_wf start r) by (destruct Hw as [_ [_ Hw]]; auto).
+  constructor; cbn [h_main h_hist h_dup]; auto.
+  - apply apply_changes_sorted. auto.
+  - intros c. apply sorted_ext.
+    + apply apply_changes_sorted. auto.
+    + apply (chain_top_sorted start). auto.
+    + intros k. change (lookup (apply_changes lc (h_main d)) c k = lookup (chain_top r) c k).
+      rewrite lookup_apply_wf by auto. rewrite Hdiff.
+      assert (lookup (st_at ((l, sn) :: r) l) c k = lookup (h_main d) c k) as E1.
+      { unfold st_at. cbn [chain_get]. rewrite N.eqb_refl. unfold lookup. rewrite (i_main _ _ _ _ I c). auto. }
+      assert (lookup (prev_state start ((l, sn) :: r) l) c k = lookup (chain_top r) c k) as E2.
+      { apply (prev_top start r l sn (chain_top r)); auto. apply ceq_refl. destruct Hw as [-> _]. auto. }
+      rewrite E1, E2. destruct (rdiff _ _) eqn:R.
+      * apply rdiff_some in R. auto.
+      * apply rdiff_none in R. auto.
+  - pose proof (i_bound _ _ _ _ I) as B. cbn [length] in B. unfold u64 in *. lia.
+  - intros fk rc Hin. destruct (F2 _ _ Hin) as [h [-> [Hh Hne]]]. exists h. split; auto.
+    unfold in_chain in *. cbn [chain_get] in Hh. destruct (l =? h) eqn:E; auto. lia.
+  - intros h rc Hh Hrc. destruct (tl_chain_facts start l sn r h Hw Hh) as [T1 [T2 [T3 T4]]].
+    unfold Hd in Hrc. cbn [h_hist] in Hrc. rewrite F3 in Hrc by auto.
+    rewrite T3, T4. apply (i_hist _ _ _ _ I); auto.
+  - intros c fk o Hin. destruct (F6 _ _ _ Hin) as [Hin0 Hx0].
+    destruct (i_dup_sound _ _ _ _ I _ _ _ Hin0) as [k [h' [rc [-> [Hh' [Hrc [Hlk HU]]]]]]].
+    assert (h' <> l) as Hne.
+    { intros ->. rewrite Hlc in Hrc. injection Hrc as <-. rewrite (Hx0 k eq_refl) in Hlk. discriminate. }
+    exists k, h', rc. repeat split; auto.
+    + unfold in_chain in *. cbn [chain_get] in Hh'. destruct (l =? h') eqn:E; auto. lia.
+    + unfold Hd. cbn [h_hist]. rewrite F3; auto.
+  - intros c k h rc o Hh Hrc Hlk. destruct (tl_chain_facts start l sn r h Hw Hh) as [T1 [T2 _]].
+    unfold Hd in Hrc. cbn [h_hist] in Hrc. rewrite F3 in Hrc by auto. rewrite F7 by auto.
+    eapply (i_dup_complete _ _ _ _ I); eauto.
+Qed.
+
+Lemma push_chain_facts : forall start ch h0 sn h, chain_wf start ch -> h0 = start + N.of_nat (length ch) ->
+  in_chain ((h0, sn) :: ch) h -> h = h0 \/ in_chain ch h.
+Proof.
+  intros. unfold in_chain in *. cbn [chain_get] in *. destruct (h0 =? h) eqn:E; auto. left. lia.
+Qed.
+Lemma in_chain_push : forall ch h0 sn (h : N), in_chain ch h -> in_chain ((h0, sn) :: ch) h.
+Proof. intros. unfold in_chain in *. cbn [chain_get]. destruct (h0 =? h); auto. congruence. Qed.
+Lemma not_in_chain_next : forall start ch, chain_wf start ch -> ~ in_chain ch (start + N.of_nat (length ch)).
+Proof. intros start ch Hw H. apply (in_chain_range start) in H; auto. lia. Qed.
+
+(* a commit that stores no history (NoRewind) *)
+Lemma Inv_commit_plain : forall U start d ch ch0 m', Inv U start d ch ->
+  u64 (start + N.of_nat (S (length ch))) ->
+  ceq m' (apply_changes ch0 (h_main d)) ->
+  Inv U start {| h_main := m'; h_hist := h_hist d; h_dup := h_dup d |}
+      ((start + N.of_nat (length ch), apply_changes ch0 (chain_top ch)) :: ch).
+Proof.
+  intros U start d ch ch0 m' I Hb Hm.
+  pose proof (i_chain _ _ _ _ I) as Hw. pose proof (i_main_sorted _ _ _ _ I) as Hms.
+  set (h0 := start + N.of_nat (length ch)).
+  assert (Hold : forall h rc, in_chain ((h0, apply_changes ch0 (chain_top ch)) :: ch) h -> Hd d h = Some rc -> in_chain ch h).
+  { intros h rc Hh Hrc. destruct (push_chain_facts start ch h0 _ h Hw eq_refl Hh) as [->|]; auto.
+    eapply Hd_in_chain; eauto. unfold u64, h0 in *. lia. }
+  constructor; cbn [h_main h_hist h_dup chain_top length]; try apply I; auto.
+  - eapply csorted_ceq. apply ceq_sym. eauto. apply apply_changes_sorted. auto.
+  - eapply ceq_trans. eauto. apply apply_changes_ceq. apply I.
+  - cbn. split; auto. split; auto. apply apply_changes_sorted. apply (chain_top_sorted start). auto.
+  - intros fk rc Hin. destruct (i_hist_keys _ _ _ _ I _ _ Hin) as [h [-> Hh]]. exists h. split; auto.
+    apply in_chain_push. auto.
+  - intros h rc Hh Hrc. pose proof (Hold _ _ Hh Hrc) as Hh0.
+    rewrite (st_at_push start), (prev_state_push start); auto. apply (i_hist _ _ _ _ I); auto.
+  - intros c fk o Hin. destruct (i_dup_sound _ _ _ _ I _ _ _ Hin) as [k [h [rc [E [Hh R]]]]].
+    exists k, h, rc. split; auto. split; auto. apply in_chain_push. auto.
+  - intros c k h rc o Hh Hrc Hl. pose proof (Hold _ _ Hh Hrc) as Hh0.
+    eapply (i_dup_complete _ _ _ _ I); eauto.
+Qed.
+
+Lemma flat_keys : forall ch c k o, In (c, k, o) (flat ch) -> In (c, k) (changes_keys ch).
+Proof.
+  intros ch c k o H. unfold flat in H. apply in_flat_map in H as [[c0 es] [H1 H2]].
+  unfold tag_entries in H2. cbn [fst snd] in H2. apply in_map_iff in H2 as [[k' o'] [E H2]].
+  cbn in E. injection E as -> -> ->. unfold changes_keys. apply in_flat_map. exists (c, es). split; auto.
+  cbn [fst snd]. apply in_map_iff. exists (k, o). auto.
+Qed.
+Lemma fold_fapplyW_some : forall b g c k o, fold_left fapplyW b g c k = Some o ->
+  g c k = Some o \/ exists k' o', In (c, k', o') b /\ keqb k k' = true.
+Proof.
+  induction b as [|[[c0 k0] o0] b]; cbn [fold_left]; intros g c k o H; auto.
+  apply IHb in H as [H|[k' [o' [H1 H2]]]].
+  - unfold fapplyW in H. cbn [fst snd] in H. destruct ((c =? c0) && keqb k k0) eqn:E; auto.
+    apply andb_true_iff in E as [E1 E2]. apply N.eqb_eq in E1. subst. right. exists k0, o0. split; cbn; auto.
+  - right. exists k', o'. split; cbn; auto.
+Qed.
+Lemma merged_keys : forall ch0 c k b, lookup (merge_list [ch0] []) c k = Some b -> In (c, k) (changes_keys ch0).
+Proof.
+  intros ch0 c k b H. rewrite lookup_merge_list in H. apply fold_fapplyW_some in H as [H|[k' [o' [H1 H2]]]].
+  - unfold lookup in H. destruct c; discriminate.
+  - apply keqb_eq in H2. subst. unfold flat_list in H1. cbn [flat_map] in H1. rewrite app_nil_r in H1.
+    eapply flat_keys; eauto.
+Qed.
+
+(* a commit with history *)
+Lemma Inv_commit_hist : forall U start d ch p ch0, Inv U start d ch -> p <> 0 ->
+  u64 (start + N.of_nat (S (length ch))) -> incl (changes_keys ch0) U ->
+  Inv U start (hist_commit_history p (start + N.of_nat (length ch)) (merge_list [ch0] []) d)
+      ((start + N.of_nat (length ch), apply_changes ch0 (chain_top ch)) :: ch).
+Proof.
+  intros U start d ch p ch0 I0 Hp Hb HU.
+  set (h0 := start + N.of_nat (length ch)).
+  assert (Hb0 : u64 h0) by (unfold u64, h0 in *; lia).
+  pose proof (Inv_cleanup U start d ch p h0 I0 Hb0) as I.
+  unfold hist_commit_history. set (d1 := cleanup_old p h0 d) in *.
+  set (M := merge_list [ch0] []). pose proof (merged_wf [ch0]) as WM. fold M in WM.
+  assert (Em : h_main d1 = h_main d) by apply cleanup_main.
+  set (reverse := reverse_history_changes (h_main d) M).
+  pose proof (reverse_wf (h_main d) M WM) as WR. fold reverse in WR.
+  pose proof (i_chain _ _ _ _ I) as Hw. pose proof (i_main_sorted _ _ _ _ I) as Hms.
+  assert (Hfresh : Hd d1 h0 = None).
+  { destruct (Hd d1 h0) eqn:E; auto. exfalso. apply (not_in_chain_next start ch Hw). eapply Hd_in_chain; eauto. }
+  unfold Hd in Hfresh. rewrite Hfresh.
+  set (sn := apply_changes ch0 (chain_top ch)).
+  assert (Hmain : ceq (apply_changes M (h_main d1)) sn).
+  { eapply ceq_trans. apply apply_merged. auto. unfold flat_list. cbn [flat_map]. rewrite app_nil_r.
+    eapply ceq_trans. apply ceq_sym. apply apply_changes_batch. apply apply_changes_ceq. apply I. }
+  assert (Hkeq : forall h, u64 h -> h <> h0 -> keqb (be64 h) (be64 h0) = false).
+  { intros h Hbh Hne. destruct (keqb (be64 h) (be64 h0)) eqn:E; auto. apply keqb_eq in E. apply be64_inj in E; auto. congruence. }
+  assert (Hself : keqb (be64 h0) (be64 h0) = true) by (apply keqb_eq; auto).
+  assert (Hold : forall h, in_chain ((h0, sn) :: ch) h -> h <> h0 -> in_chain ch h).
+  { intros h Hh Hne. destruct (push_chain_facts start ch h0 _ h Hw eq_refl Hh); auto. congruence. }
+  assert (Hbnd : forall h, in_chain ((h0, sn) :: ch) h -> u64 h).
+  { intros h Hh. destruct (push_chain_facts start ch h0 _ h Hw eq_refl Hh) as [->|]; auto. eapply in_chain_u64; eauto. }
+  assert (Hnew : in_chain ((h0, sn) :: ch) h0).
+  { unfold in_chain. cbn [chain_get]. rewrite N.eqb_refl. congruence. }
+  constructor; cbn [h_main h_hist h_dup chain_top length].
+  - apply apply_changes_sorted. auto.
+  - auto.
+  - cbn. split; auto. split; auto. apply apply_changes_sorted. apply (chain_top_sorted start). auto.
+  - auto.
+  - apply minsert_sorted. apply I.
+  - intros fk rc Hin. apply minsert_In in Hin as [E|Hin].
+    + injection E as -> ->. exists h0. auto.
+    + destruct (i_hist_keys _ _ _ _ I _ _ Hin) as [h [-> Hh]]. exists h. split; auto. apply in_chain_push. auto.
+  - intros h rc Hh Hrc. unfold Hd in Hrc. cbn [h_hist] in Hrc. rewrite mget_minsert in Hrc.
+    destruct (N.eq_dec h h0) as [->|Hne].
+    + rewrite Hself in Hrc. injection Hrc as <-. split; auto. intros c k.
+      unfold reverse. rewrite lookup_reverse by auto.
+      rewrite (prev_top start ch h0 sn (h_main d)); auto. 2: rewrite <- Em; apply I.
+      assert (lookup (st_at ((h0, sn) :: ch) h0) c k = lookup (apply_changes M (h_main d)) c k) as ->.
+      { unfold st_at. cbn [chain_get]. rewrite N.eqb_refl. unfold lookup. rewrite <- Em, (Hmain c). auto. }
+      rewrite lookup_apply_wf by (auto; rewrite <- Em; auto).
+      destruct (lookup M c k). apply rev_entry_rdiff. symmetry. apply rdiff_refl.
+    + rewrite Hkeq in Hrc by auto. pose proof (Hold _ Hh Hne) as Hh0.
+      rewrite (st_at_push start), (prev_state_push start); auto. apply (i_hist _ _ _ _ I); auto.
+  - apply add_hist_sorted. apply I.
+  - intros c fk o Hin. pose proof (add_hist_sorted h0 reverse _ (i_dup_sorted _ _ _ _ I) c) as Hs'.
+    apply mget_In in Hin; auto.
+    assert (Hfrom1 : mget fk (cget c (h_dup d1)) = Some o -> (forall k, fk <> height_key k h0) \/ True ->
+            exists k h rc, fk = height_key k h /\ in_chain ((h0, sn) :: ch) h /\
+              Hd {| h_main := apply_changes M (h_main d1); h_hist := minsert (be64 h0) reverse (h_hist d1);
+                    h_dup := add_historical h0 reverse (h_dup d1) |} h = Some rc /\ lookup rc c k = Some o /\ In (c, k) U).
+    { intros G _. apply mget_In in G. 2: apply I.
+      destruct (i_dup_sound _ _ _ _ I _ _ _ G) as [k [h [rc [-> [Hh [Hrc [Hl HUk]]]]]]].
+      exists k, h, rc. split; auto. split. apply in_chain_push; auto. split; auto.
+      unfold Hd. cbn [h_hist]. rewrite mget_minsert. rewrite Hkeq; auto.
+      eapply in_chain_u64; eauto. intros ->. apply (not_in_chain_next start ch Hw). auto. }
+    destruct (hk_form_dec fk h0) as [[k ->]|Hne].
+    + rewrite add_hist_hk in Hin; auto. 2: apply I.
+      destruct (lookup reverse c k) as [o'|] eqn:El.
+      * injection Hin as ->. exists k, h0, reverse. split; auto. split; auto. split.
+        unfold Hd. cbn [h_hist]. rewrite mget_minsert, Hself. auto.
+        split; auto. unfold reverse in El. rewrite lookup_reverse in El by auto.
+        destruct (lookup M c k) eqn:ElM; try discriminate. apply HU. eapply merged_keys; eauto.
+      * apply Hfrom1; auto.
+    + rewrite add_hist_other in Hin; auto. apply I.
+  - intros c k h rc o Hh Hrc Hl. unfold Hd in Hrc. cbn [h_hist] in Hrc. rewrite mget_minsert in Hrc.
+    destruct (N.eq_dec h h0) as [->|Hne].
+    + rewrite Hself in Hrc. injection Hrc as <-. rewrite add_hist_hk; auto. rewrite Hl. auto. apply I.
+    + rewrite Hkeq in Hrc by auto. pose proof (Hold _ Hh Hne) as Hh0.
+      rewrite add_hist_other. eapply (i_dup_complete _ _ _ _ I); eauto. apply I.
+      intros k2 E2. apply height_key_inj in E2 as [_ ->]; auto.
+Qed.
+
+(* ------------------------------------------------------------------ whole histories *)
+Fixpoint grun (start : N) (s : hstate) (ch : chain) (ops : list hop) : hstate * chain :=
+  match ops with
+  | [] => (s, ch)
+  | o :: r => grun start (fst (hstep start s o)) (ghost_step start ch o (snd (hstep start s o))) r
+  end.
+
+(* what a HashMap of BTreeMaps guarantees: one change set never writes a (column,key) twice *)
+Definition op_wf (U : list ck) (o : hop) : Prop :=
+  match o with
+  | HCommit ch0 => conflict_free (SChanges ch0) = true /\ incl (changes_keys ch0) U
+  | _ => True
+  end.
+Definition ops_wf (U : list ck) (ops : list hop) : Prop := Forall (op_wf U) ops.
+
+Definition RInv (U : list ck) (start : N) (s : hstate) (ch : chain) : Prop :=
+  Inv U start (s_db s) ch /\ s_latest s = chain_latest ch.
+
+Lemma RInv_step : forall U start s ch o, RInv U start s ch -> op_wf U o ->
+  u64 (start + N.of_nat (S (length ch))) ->
+  RInv U start (fst (hstep start s o)) (ghost_step start ch o (snd (hstep start s o))).
+Proof.
+  intros U start s ch o [I Hl] Hwf Hb. pose proof (i_chain _ _ _ _ I) as Hw.
+  destruct o as [ch0| |p']; cbn [hstep].
+  - (* commit *)
+    destruct Hwf as [Hcf HU]. rewrite Hl. rewrite (chain_latest_next start ch Hw).
+    set (h0 := start + N.of_nat (length ch)).
+    destruct (hist_commit (s_policy s) (Some h0) (SChanges ch0) (s_db s)) as [d' ok] eqn:E.
+    cbn [fst snd ghost_step]. rewrite N.eqb_refl. rewrite (chain_latest_next start ch Hw). fold h0.
+    split; [|cbn; auto]. cbn [s_db]. unfold hist_commit in E.
+    destruct (s_policy s =? 0) eqn:Ep.
+    + pose proof (rocks_commit_spec (h_main (s_db s)) (SChanges ch0)) as [_ R2].
+      destruct (rocks_commit (h_main (s_db s)) (SChanges ch0)) as [m ok']. injection E as <- _.
+      apply Inv_commit_plain; auto. unfold spec_commit in R2. rewrite Hcf in R2. cbn in R2. auto.
+    + injection E as <- _. apply Inv_commit_hist; auto. apply N.eqb_neq. auto.
+  - (* rollback *)
+    rewrite Hl. destruct ch as [|[l sn] r]; cbn [chain_latest].
+    + cbn [fst snd ghost_step]. split; auto.
+    + unfold hist_rollback. destruct (mget (be64 l) (h_hist (s_db s))) as [lc|] eqn:E.
+      * cbn [fst snd ghost_step tl]. replace (0 =? 0) with true by auto. cbn [tl]. split; cbn [s_db s_latest].
+        -- apply (Inv_rollback U start (s_db s) l sn r lc); auto.
+        -- destruct Hw as [-> [_ Hw']]. destruct r as [|[l' s'] r']; cbn [chain_latest length].
+           ++ replace (start + N.of_nat 0 =? start) with true by lia. auto.
+           ++ destruct Hw' as [-> _]. assert (start + N.of_nat (S (length r')) =? start = false) as -> by lia.
+              f_equal. lia.
+      * cbn [fst snd ghost_step]. replace (6 =? 0) with false by auto. split; auto.
+  - (* restart *)
+    cbn [fst snd ghost_step]. split; auto.
+Qed.
+
+Lemma ghost_step_length : forall start ch o tag, (length (ghost_step start ch o tag) <= S (length ch))%nat.
+Proof. intros. destruct o; cbn [ghost_step]; try lia; destruct (tag =? 0); cbn; try lia. destruct ch; cbn; lia. Qed.
+
+Lemma RInv_run : forall U start ops s ch, RInv U start s ch -> ops_wf U ops ->
+  u64 (start + N.of_nat (length ch + length ops)) ->
+  RInv U start (fst (grun start s ch ops)) (snd (grun start s ch ops)).
+Proof.
+  induction ops as [|o ops IH]; intros s ch R Hwf Hb; cbn [grun fst snd]; auto.
+  inversion Hwf; subst. apply IH; auto.
+  - apply RInv_step; auto. unfold u64 in *. cbn [length] in Hb. lia.
+  - pose proof (ghost_step_length start ch o (snd (hstep start s o))). unfold u64 in *. cbn [length] in Hb. lia.
+Qed.
+
+(* the boolean gap test means: no hole above a retained height *)
+Lemma consecutive_In : forall ks lo, consecutive ks lo = true ->
+  forall x, In x ks <-> exists i, (i < length ks)%nat /\ x = be64 (lo + N.of_nat i).
+Proof.
+  induction ks as [|k ks IH]; intros lo H x; cbn [consecutive In length] in *.
+  - split. intros []. intros [i [Hi _]]. lia.
+  - apply andb_true_iff in H as [E H]. apply bytes_eqb_eq in E. subst k. rewrite (IH _ H). split.
+    + intros [<-|[i [Hi ->]]]. exists O. split. lia. f_equal. lia.
+      exists (S i). split. lia. f_equal. lia.
+    + intros [[|i] [Hi ->]]. left. f_equal. lia.
+      right. exists i. split. lia. f_equal. lia.
+Qed.
+
+Lemma gap_free_GF : forall U start s ch, RInv U start s ch -> gap_free s = true -> GF (s_db s) ch.
+Proof.
+  intros U start s ch [I Hl] Hg a j Ha Hda Haj Hj.
+  pose proof (i_chain _ _ _ _ I) as Hw. pose proof (i_hist_sorted _ _ _ _ I) as Hs.
+  unfold gap_free in Hg. unfold Hd in *.
+  destruct (mget (be64 a) (h_hist (s_db s))) as [rca|] eqn:Ea; [|congruence].
+  apply mget_In in Ea; auto.
+  assert (In (be64 a) (map fst (h_hist (s_db s)))) as Hina by (apply in_map_iff; exists (be64 a, rca); auto).
+  destruct (map fst (h_hist (s_db s))) as [|k0 ks] eqn:Eks; [destruct Hina|].
+  rewrite Hl in Hg. destruct (chain_latest ch) as [l|] eqn:El; [|discriminate].
+  apply andb_true_iff in Hg as [Hn Hc].
+  set (n := N.of_nat (length (k0 :: ks))) in *.
+  assert (l = start + N.of_nat (length ch) - 1 /\ (length ch > 0)%nat) as [El' Hlen].
+  { destruct ch as [|[l0 s0] r]; cbn in El; try discriminate. injection El as <-. destruct Hw as [-> _]. cbn [length]. lia. }
+  pose proof (proj1 (in_chain_range start ch a Hw) Ha) as Ra.
+  pose proof (proj1 (in_chain_range start ch j Hw) Hj) as Rj.
+  pose proof (i_bound _ _ _ _ I) as B.
+  apply (consecutive_In _ _ Hc) in Hina as [i [Hi Ei]].
+  apply be64_inj in Ei; try (unfold u64 in *; lia). 
+  assert (In (be64 j) (k0 :: ks)) as Hinj.
+  { apply (consecutive_In _ _ Hc). exists (N.to_nat (j - (l + 1 - n))). split.
+    - subst n. lia.
+    - f_equal. lia. }
+  rewrite <- Eks in Hinj. apply in_map_iff in Hinj as [[kj rcj] [E Hin]]. cbn [fst] in E. subst kj.
+  apply mget_In in Hin; auto. rewrite Hin. congruence.
+Qed.
+
+Lemma RInv_init : forall U start p, u64 start -> RInv U start (hinit p) [].
+Proof. intros. split; cbn; auto. apply Inv_init. auto. Qed.
+
+(* C12, views: after ANY history of commits, rollbacks and restarts with any policies, a view at
+   height h is refused (no history) or returns, for every key, exactly the value of the snapshot
+   taken right after block h - provided the keys written to one column are prefix-free (H1) and the
+   retained heights have no hole (H2) *)
+Theorem view_exact_or_nohistory_all : forall U start p ops,
+  ops_wf U ops -> prefix_free U = true -> u64 (start + N.of_nat (length ops)) ->
+  gap_free (fst (grun start (hinit p) [] ops)) = true ->
+  forall h c k, u64 (h + 1) -> In (c, k) U ->
+  match create_view_at h (s_db (fst (grun start (hinit p) [] ops))) with
+  | None => True
+  | Some rb => exists sn, snapshot start (snd (grun start (hinit p) [] ops)) h = Some sn /\
+               view_get rb (s_db (fst (grun start (hinit p) [] ops))) c k = lookup sn c k
+  end.
+Proof.
+  intros U start p ops Hwf PF Hb Hg h c k Hh HU.
+  assert (u64 start) as Hbs by (unfold u64 in *; lia).
+  pose proof (RInv_run U start ops (hinit p) [] (RInv_init U start p Hbs) Hwf Hb) as R.
+  destruct (create_view_at h _) as [rb|] eqn:E; auto.
+  eapply view_correct; eauto. apply R. eapply gap_free_GF; eauto.
+Qed.
+
+(* C12, rollbacks and commits: after ANY history the database holds exactly the newest snapshot of
+   the ghost chain: a commit applies exactly its change set, a successful rollback restores exactly
+   the state of the previous height, again and again; a rollback succeeds exactly when the record
+   of the latest height is retained *)
+Theorem rollback_restores_prev_all : forall U start p ops,
+  ops_wf U ops -> u64 (start + N.of_nat (length ops)) ->
+  let s := fst (grun start (hinit p) [] ops) in
+  let ch := snd (grun start (hinit p) [] ops) in
+  ceq (h_main (s_db s)) (chain_top ch) /\ s_latest s = chain_latest ch /\
+  (forall l, s_latest s = Some l -> (snd (hist_rollback l (s_db s)) = true <-> Hd (s_db s) l <> None)).
+Proof.
+  intros U start p ops Hwf Hb. cbn zeta.
+  assert (u64 start) as Hbs by (unfold u64 in *; lia).
+  pose proof (RInv_run U start ops (hinit p) [] (RInv_init U start p Hbs) Hwf Hb) as [I Hl].
+  split; [apply I|]. split; auto.
+  intros l _. unfold hist_rollback, Hd. destruct (mget (be64 l) _); cbn; split; congruence.
+Qed.
+
+(* the two classes outside the view theorem are real *)
+Definition ex_s7_ops : list hop :=
+  [ HCommit [(0, [([1; 0], WInsert [1])])]; HCommit [(0, [([1; 0], WInsert [2])])];
+    HCommit [(0, [([1; 0], WInsert [3])])]; HCommit [(0, [([1; 0], WInsert [4])])];
+    HCommit [(0, [([1; 0], WInsert [5])])]; HRestart 2; HCommit [(0, [([1; 0], WInsert [6])])] ].
+(* S7: RewindRange{3} for five blocks, restart with RewindRange{1}, one more block: the view at
+   height 4 returns the value of height 5 *)
+Lemma view_gap_refuted :
+  let s := fst (grun 1 (hinit 4) [] ex_s7_ops) in
+  gap_free s = false /\
+  create_view_at 4 (s_db s) = Some 5 /\ view_get 5 (s_db s) 0 [1; 0] = Some [5] /\
+  exists sn, snapshot 1 (snd (grun 1 (hinit 4) [] ex_s7_ops)) 4 = Some sn /\ lookup sn 0 [1; 0] = Some [4].
+Proof. vm_compute. repeat split; auto. eexists. split; reflexivity. Qed.
+
+(* S6 (repaired): with keys [1] and [1,0] in one column the original comparison of only the first
+   |key| bytes returned the history of [1] for [1,0]; the repaired lookup is right here, but a
+   column whose keys are not prefix-free stays outside the theorem *)
+Definition ex_s6_ops : list hop :=
+  [ HCommit [(0, [([1], WInsert [7]); ([1; 0], WInsert [5])])]; HCommit [(0, [([1], WInsert [8])])] ].
+Lemma view_mixed_lengths_orig_refuted :
+  let s := fst (grun 1 (hinit 1) [] ex_s6_ops) in
+  view_get_orig 2 (s_db s) 0 [1; 0] = Some None /\ view_get 2 (s_db s) 0 [1; 0] = Some [5] /\
+  prefix_free (universe ex_s6_ops) = false.
+Proof. vm_compute. auto. Qed.
+
+(* non-vacuity: a history with a growing window, rollbacks and re-commits that satisfies every
+   hypothesis and has views that are not refused *)
+Definition ex_ok_ops : list hop :=
+  [ HCommit [(0, [([1; 0], WInsert [1]); ([254; 1], WInsert [9])])]; HCommit [(0, [([1; 0], WRemove)])];
+    HRestart 4; HCommit [(0, [([1; 0], WInsert [3])]); (1, [([0; 0], WInsert [])])]; HRollback;
+    HCommit [(0, [([254; 1], WInsert [9])])]; HCommit [(1, [([0; 0], WRemove)])] ].
+Example view_nonvacuous :
+  let U := universe ex_ok_ops in
+  ops_wf U ex_ok_ops /\ prefix_free U = true /\
+  gap_free (fst (grun 1 (hinit 3) [] ex_ok_ops)) = true /\
+  create_view_at 2 (s_db (fst (grun 1 (hinit 3) [] ex_ok_ops))) = Some 3 /\
+  view_get 3 (s_db (fst (grun 1 (hinit 3) [] ex_ok_ops))) 0 [1; 0] = None /\
+  view_get 2 (s_db (fst (grun 1 (hinit 3) [] ex_ok_ops))) 0 [1; 0] = Some [1].
+Proof.
+  cbn zeta. split; [|vm_compute; auto].
+  unfold ops_wf, ex_ok_ops.
+  repeat (apply Forall_cons; [try exact Logic.I; try (split; [vm_compute; reflexivity | intros x Hx; vm_compute in Hx; vm_compute; tauto]) |]).
+  apply Forall_nil.
+Qed.
+
+(* ------------------------------------------------------------------ the checker of C12 *)
+Definition view_ok (start : N) (uni : list ck) (ch : chain) (h : N) (v : view_obs) : Prop :=
+  match v with
+  | None => True
+  | Some vals => exists sn, snapshot start ch h = Some sn /\ vals = lookups uni sn
+  end.
+Fixpoint HTrace (start : N) (uni : list ck) (hs : list N) (ch : chain) (ops : list hop) (obs : list hobs) : Prop :=
+  match ops, obs with
+  | [], [] => True
+  | o :: r, ob :: obs' =>
+      let ch' := ghost_step start ch o (ho_tag ob) in
+      hop_okb ch o (ho_tag ob) = true /\
+      ho_latest ob = lookups uni (chain_top ch') /\
+      Forall2 (view_ok start uni ch') hs (ho_views ob) /\
+      HTrace start uni hs ch' r obs'
+  | _, _ => False
+  end.
+
+Lemma ovlist_eqb_eq : forall a b, ovlist_eqb a b = true <-> a = b.
+Proof.
+  induction a as [|x a IH]; destruct b as [|y b]; cbn; try (split; congruence).
+  rewrite andb_true_iff, oveqb_eq, IH. split. intros [-> ->]; auto. intros E. injection E as -> ->. auto.
+Qed.
+Lemma view_okb_ok : forall start uni ch h v, view_okb start uni ch h v = true <-> view_ok start uni ch h v.
+Proof.
+  intros. destruct v as [vals|]; cbn; [|tauto].
+  destruct (snapshot start ch h) as [sn|].
+  - rewrite ovlist_eqb_eq. split. intros ->. eauto. intros [sn' [E ->]]. congruence.
+  - split. discriminate. intros [sn' [E _]]. discriminate.
+Qed.
+Lemma views_okb_ok : forall start uni ch hs vs,
+  views_okb start uni ch hs vs = true <-> Forall2 (view_ok start uni ch) hs vs.
+Proof.
+  induction hs as [|h hs IH]; destruct vs as [|v vs]; cbn [views_okb].
+  - split; auto.
+  - split. discriminate. intros H. inversion H.
+  - split. discriminate. intros H. inversion H.
+  - rewrite andb_true_iff, view_okb_ok, IH. split.
+    + intros [A B]. constructor; auto.
+    + intros H. inversion H; subst. auto.
+Qed.
+Lemma htrace_okb_ok : forall start uni hs ops ch obs,
+  htrace_okb start uni hs ch ops obs = true <-> HTrace start uni hs ch ops obs.
+Proof.
+  induction ops as [|o ops IH]; intros ch obs; destruct obs as [|ob obs]; cbn [htrace_okb HTrace]; try tauto;
+    try (split; [discriminate | tauto]).
+  cbn zeta. rewrite !andb_true_iff, ovlist_eqb_eq, views_okb_ok, IH. tauto.
+Qed.
+Lemma c12_okb_sound : forall start ops obs,
+  c12_okb start ops obs = true <-> HTrace start (universe ops) (view_heights start ops) [] ops obs.
+Proof. intros. apply htrace_okb_ok. Qed.
+
+
+(* ------------------------------------------------------------------ the model's own trace passes the checker *)
+Lemma lookups_ceq : forall uni (a b : cstate value), ceq a b -> lookups uni a = lookups uni b.
+Proof. intros. unfold lookups. apply map_ext. intros x. rewrite (H (fst x)). auto. Qed.
+
+Lemma hstep_tag_ok : forall U start s ch o, RInv U start s ch -> hop_okb ch o (snd (hstep start s o)) = true.
+Proof.
+  intros U start s ch o [I Hl]. destruct o as [ch0| |p']; cbn [hstep hop_okb].
+  - destruct (hist_commit _ _ _ _). auto.
+  - rewrite Hl. destruct ch as [|[l sn] r]; cbn [chain_latest snd]; auto.
+    destruct (hist_rollback l (s_db s)) as [d ok]. destruct ok; auto.
+  - auto.
+Qed.
+
+Lemma hrun_passes : forall U start uni hs ops s ch,
+  RInv U start s ch -> ops_wf U ops -> u64 (start + N.of_nat (length ch + length ops)) ->
+  run_gap_free start s ops = true -> prefix_free U = true -> incl uni U ->
+  Forall (fun h => u64 (h + 1)) hs ->
+  htrace_okb start uni hs ch ops (hrun start uni hs s ops) = true.
+Proof.
+  induction ops as [|o ops IH]; intros s ch R Hwf Hb Hg PF Hinc Hhs; cbn [hrun htrace_okb]; auto.
+  inversion Hwf; subst. cbn [run_gap_free] in Hg. apply andb_true_iff in Hg as [Hg1 Hg2].
+  assert (u64 (start + N.of_nat (S (length ch)))) as Hb1 by (unfold u64 in *; cbn [length] in Hb; lia).
+  pose proof (RInv_step U start s ch o R H1 Hb1) as R'.
+  pose proof (hstep_tag_ok U start s ch o R) as Htag.
+  destruct (hstep start s o) as [s' tag] eqn:E. cbn [fst snd] in *.
+  cbn [htrace_okb observe ho_tag ho_latest ho_views].
+  rewrite Htag. cbn [andb].
+  destruct R' as [I' Hl'].
+  assert (ovlist_eqb (map (fun x : N * key => mget (snd x) (cget (fst x) (h_main (s_db s')))) uni)
+                     (lookups uni (chain_top (ghost_step start ch o tag))) = true) as ->.
+  { apply ovlist_eqb_eq. apply (lookups_ceq uni). apply I'. }
+  cbn [andb]. rewrite andb_true_iff. split.
+  - apply views_okb_ok. pose proof (gap_free_GF U start s' _ (conj I' Hl') Hg1) as G.
+    clear IH Hg2 Hwf H2. induction Hhs as [|h hs Hh Hhs IHh]; cbn [map]; constructor; auto.
+    unfold view_ok. destruct (create_view_at h (s_db s')) as [rb|] eqn:Ev; auto.
+    destruct (view_granted U start (s_db s') _ h rb I' G Hh Ev) as [_ [sn [Es _]]].
+    exists sn. split; auto. unfold lookups. apply map_ext_in. intros [c k] Hx. cbn [fst snd].
+    destruct (view_correct U start (s_db s') _ h rb c k I' G PF (Hinc _ Hx) Hh Ev) as [sn' [Es' Ev']].
+    rewrite Es in Es'. injection Es' as <-. auto.
+  - apply IH; auto.
+    + split; auto.
+    + pose proof (ghost_step_length start ch o tag). unfold u64 in *. cbn [length] in Hb. lia.
+Qed.
+
+Lemma filter_len_le : forall {A} (f : A -> bool) l, (length (filter f l) <= length l)%nat.
+Proof. induction l; cbn; auto. destruct (f a); cbn; lia. Qed.
+Lemma seqN_bound : forall n lo x, In x (seqN lo n) -> lo <= x < lo + N.of_nat n.
+Proof. induction n; cbn; intros lo x H. destruct H. destruct H as [<-|H]. lia. apply IHn in H. lia. Qed.
+
+(* the trace the model computes (the one compared with the implementation's on every case) passes
+   the checker whenever the history is outside the two classes *)
+Theorem model_passes_c12 : forall U start p ops,
+  ops_wf U ops -> prefix_free U = true -> incl (universe ops) U ->
+  u64 (start + N.of_nat (length ops) + 2) ->
+  run_gap_free start (hinit p) ops = true ->
+  c12_okb start ops (hmodel start p ops) = true.
+Proof.
+  intros U start p ops Hwf PF Hinc Hb Hg. unfold c12_okb, hmodel.
+  apply (hrun_passes U); auto.
+  - apply RInv_init. unfold u64 in *. lia.
+  - unfold u64 in *. cbn [length]. lia.
+  - apply Forall_forall. intros h Hh. unfold view_heights in Hh. apply seqN_bound in Hh.
+    assert (n_commits ops <= N.of_nat (length ops)).
+    { unfold n_commits. pose proof (filter_len_le (fun o => match o with HCommit _ => true | _ => false end) ops). lia. }
+    unfold u64 in *. lia.
+Qed.
